@@ -61,7 +61,7 @@ def run_case(case):
         return pipeline.gen_failed_result(g, api)
     model = rdm.Model(req)
     rng = random.Random(case["seed"] ^ 0xC18)
-    settings = {s["selector"].rsplit(".", 1)[1]: s["auto_populated_fields"] for s in api.info["method_settings"]}
+    settings = {s["selector"].rsplit(".", 1)[1]: s.get("auto_populated_fields", []) for s in api.info["method_settings"]}
     calls = []
     for p, s, m in refs.target_methods(req):
         if m.client_streaming or m.server_streaming:
